@@ -25,6 +25,21 @@ fn main() {
     }
     match args[1].as_str() {
         "trusted" => trusted::run(),
+        // candidate SQLite tokens with the value OUR oracle lexers decode them to; the driver asks a real SQLite engine
+        // (python's sqlite3) for the value of the same token - validation of the hand-written SQLite oracles
+        "oracle-sqlite" => {
+            let esc = |s: &str| s.chars().flat_map(|c| match c { '"' => "\\\"".chars().collect::<Vec<_>>(), '\\' => "\\\\".chars().collect(), c if (c as u32) < 0x20 => format!("\\u{:04x}", c as u32).chars().collect(), c => vec![c] }).collect::<String>();
+            let alpha = ['\'', '"', 'a', '\\', ' ', 'é', '%', 'x', '0', 'F'];
+            let mut n = 0usize;
+            util::strings(&alpha, 5, |s| {
+                let t: Vec<char> = s.chars().collect();
+                if let Some((v, end)) = lexers::sqlite_string_lit(&t) { if end == t.len() { println!("{{\"kind\":\"string\",\"token\":\"{}\",\"value\":\"{}\"}}", esc(s), esc(&v)); n += 1; } }
+                if let Some((v, end)) = lexers::quoted_ident(&t, '"') { if end == t.len() && !v.is_empty() { println!("{{\"kind\":\"ident\",\"token\":\"{}\",\"value\":\"{}\"}}", esc(s), esc(&v)); n += 1; } }
+                if let Some((v, end)) = lexers::x_blob_lit(&t) { if end == t.len() { println!("{{\"kind\":\"blob\",\"token\":\"{}\",\"value\":\"{}\"}}", esc(s), v.iter().map(|b| format!("{b:02x}")).collect::<String>()); n += 1; } }
+                false
+            });
+            eprintln!("{n} tokens");
+        }
         "search" => {
             let prop = args.get(2).map(|s| s.as_str()).unwrap_or("");
             let obl = args.get(3).map(|s| s.as_str()).unwrap_or("");
